@@ -74,6 +74,13 @@ def check(run):
         for c, o in zip(cases, outs):
             if isinstance(o, str):
                 broken.append(('correspondence', 'codec probe error', o[:300])); continue
+            # real engine + real gRPC: on a loaded machine a client call can time out; an operation that failed is no
+            # statement about C37 - run such a case again (a genuine loss is deterministic and stays)
+            tries = 0
+            while tries < 2 and not isinstance(o, str) and any(g == [9] for path in o[1:] for g in path):
+                tries += 1; o2 = core.probe('codec', [c])[0]
+                if not isinstance(o2, str): o = o2
+                run.cov['reruns_after_failed_client_call'] = run.cov.get('reruns_after_failed_client_call', 0) + 1
             pairs.append((c, o))
             v = oracle(c, o)
             if v: violations.append({'class': v[0], 'probe': 'codec', 'input': c, 'output': o, 'why': v[1]})
